@@ -1042,6 +1042,16 @@ impl Melda {
         if self.has_staging() {
             bail!("stage_not_empty")
         }
+        // Staged objects without a staged revision (see remove_object) would make the data
+        // storage refuse to reload after the documents have been cleared: refuse up front
+        if self
+            .data
+            .read()
+            .expect("cannot_acquire_data_for_reading")
+            .has_staging()
+        {
+            bail!("stage_not_empty")
+        }
         // Clear the documents
         self.documents
             .write()
@@ -1245,6 +1255,14 @@ impl Melda {
         }
         // Ensure that the stage is empty
         if self.has_staging() {
+            bail!("stage_not_empty")
+        }
+        if self
+            .data
+            .read()
+            .expect("cannot_acquire_data_for_reading")
+            .has_staging()
+        {
             bail!("stage_not_empty")
         }
         let mut documents_w = self
